@@ -262,6 +262,7 @@ inductive Msg where
   | esmStable (stableId : Nat)                   -- the same for a stable-mint vault (esm.go:468-575)
   | esmCollector (app d : Nat) (x : Int)         -- the collector's net fees of a debt asset are burnt against the register (esm.go:267-315)
   | esmBurn (from_ app d : Nat) (x : Int)        -- MsgCollateralRedemption: a holder burns debt coins against the register (keeper.go:182-268)
+  | esmReturn1 (vaultId owner : Nat) (cur infl : Int)  -- first-generation auction wound down under shutdown, less than the principal collected (dutch.go:538-570)
   deriving Repr
 
 def create (s : State) (p : Product) (e : Env) (from_ app prod : Nat) (amtIn amtOut : Int) : Option State :=
@@ -535,13 +536,46 @@ def esmBurn (s : State) (from_ app d : Nat) (x : Int) : Option State :=
                 extSupply := upd1 s.extSupply d (s.extSupply d - x),
                 redeem := upd2 s.redeem app d (s.redeem app d - x) }
 
+/-- collateral `cin` comes back from auction custody into a vault of `owner` on product `p`, together with `cout` of
+principal: the owner's open vault of that product is topped up, or a new vault is created (`CreateNewVault`,
+vault.go:574-619: new id, counter + 1, appended to the product's list; no interest, no closing fee). The product
+totals and (as the net of the auction's burn, see `esmReturn1`) the supply follow. -/
+def creditVault (s : State) (p : Product) (owner : Nat) (cin cout : Int) : Option State :=
+  if cin < 0 ∨ cout < 0 then none else
+  (runBank s [.sendPos am vm p.denomIn cin]).map fun s1 =>
+    let s2 : State :=
+      { s1 with
+        supply := upd1 s1.supply p.denomOut (s1.supply p.denomOut + cout)
+        coll := upd1 s1.coll p.id (s1.coll p.id + cin)
+        minted := upd1 s1.minted p.id (s1.minted p.id + cout) }
+    match s2.vaults.find? (fun v => v.owner = owner ∧ v.product = p.id) with
+    | some v => { s2 with vaults := setVault s2.vaults ({ v with amountIn := v.amountIn + cin, amountOut := v.amountOut + cout } : VaultRec) }
+    | none =>
+      let id := s2.nextVault + 1
+      { s2 with vaults := s2.vaults ++ [{ id := id, owner := owner, product := p.id, amountIn := cin, amountOut := cout,
+                                          interest := 0, closingFee := 0 }],
+                nextVault := id, length := s2.length + 1,
+                vaultIds := updL s2.vaultIds p.id (s2.vaultIds p.id ++ [id]) }
+
+/-- first-generation auction wound down under emergency shutdown with LESS than the principal collected
+(x/auction/keeper/dutch.go:538-570, 605-640): the `infl` collected is burnt, the unsold collateral `cur` returns to
+vault custody and the owner gets a vault with it and the principal still owed, `amountOut − infl`; the product totals
+fall by the collateral sold and by the amount burnt. Written as the close of the seized vault (`settle1`: burn the
+principal, totals − collateral − principal) followed by `creditVault` of what comes back: the net effect is the code's. -/
+def esmReturn1 (s : State) (p : Product) (e : Env) (vaultId owner : Nat) (cur infl : Int) : Option State :=
+  match s.locked.find? (·.vaultId = vaultId) with
+  | none => none
+  | some l =>
+    if l.product ≠ p.id ∨ ¬ e.esm = true ∨ cur < 0 ∨ cur > l.amountIn ∨ infl < 0 ∨ infl ≥ l.amountOut then none else
+    (settle1 s p vaultId).bind fun s1 => creditVault s1 p owner cur (l.amountOut - infl)
+
 /-- the product a message refers to (for `interestCalc` / `seize`: the product of the named vault) -/
 def Msg.product (s : State) : Msg → Option Nat
   | .create _ _ pr _ _ | .deposit _ _ pr _ _ | .withdraw _ _ pr _ _ | .draw _ _ pr _ _ | .repay _ _ pr _ _
   | .close _ _ pr _ | .depositAndDraw _ _ pr _ _ | .stableCreate _ _ pr _ | .stableDeposit _ _ pr _ _
   | .stableWithdraw _ _ pr _ _ => some pr
   | .interestCalc _ v | .seize v => (findVault s v).map (·.product)
-  | .settle v | .settle1 v => (s.locked.find? (·.vaultId = v)).map (·.product)
+  | .settle v | .settle1 v | .esmReturn1 v _ _ _ => (s.locked.find? (·.vaultId = v)).map (·.product)
   | .esmVault v => (findVault s v).map (·.product)
   | .esmStable v => (findStable s v).map (·.product)
   | .donate .. | .fund .. | .esmCollector .. | .esmBurn .. => none
@@ -565,6 +599,7 @@ def stepP (s : State) (p : Product) (e : Env) : Msg → Option State
   | .settle1 v => settle1 s p v
   | .esmVault v => esmVault s p e v
   | .esmStable v => esmStable s p e v
+  | .esmReturn1 v o c i => esmReturn1 s p e v o c i
   | .esmCollector a d x => esmCollector s a d x
   | .esmBurn f a d x => esmBurn s f a d x
 
